@@ -1,7 +1,7 @@
 (* C08 — Encoding is deterministic, canonical, and always decodable.
    Statements only (copied from coq/theories by bin/mkprops); each proof is `exact <lemma>`. *)
 From Coq Require Import Ascii String ZArith List Bool Permutation.
-From GoCose Require Import Bytes Cbor CborProofs Res GoVal Obs Ecdsa EcdsaProofs Fx Headers Enc Dec Msg HashEnv Key SigVer Run TbsProofs FlowProofs DecProofs KeyProofs HdrProofs EncProofs EncCanon NoPanic Effects MoreProofs KeyCbor EncDec.
+From GoCose Require Import Bytes Cbor CborProofs Res GoVal Obs Ecdsa EcdsaProofs Fx Headers Enc Dec Msg HashEnv Key SigVer Run TbsProofs FlowProofs DecProofs KeyProofs HdrProofs EncProofs EncCanon NoPanic Effects MoreProofs KeyCbor EncDec HdrRoundTrip.
 From GoCose.Gen Require Import Generated.
 Import ListNotations.
 Open Scope Z_scope.
@@ -106,3 +106,22 @@ Theorem C08_enc_dec_example :
   end.
 Proof. exact enc_dec_example. Qed.
 Print Assumptions C08_enc_dec_example.
+
+(* header buckets: what ProtectedHeader.MarshalCBOR returns is accepted by ProtectedHeader.UnmarshalCBOR and has the same parameters *)
+Theorem C08_protected_roundtrip :
+  forall l pb,
+  l <> [] -> simple (GMap l) = true -> (forall k v, entry_in k v l -> okval v) ->
+  enc_protected (Some l) = Acc pb ->
+  (forall m, enc_hmap l = Acc m -> within_limits m) ->
+  exists m dl, enc_hmap l = Acc m /\ pb = enc_bstr m /\
+               unmarshal_protected pb = Acc (cast_alg dl) /\ hrel l dl /\ validate_params dl true = true.
+Proof. exact protected_roundtrip. Qed.
+Print Assumptions C08_protected_roundtrip.
+
+Theorem C08_unprotected_roundtrip :
+  forall l ub,
+  l <> [] -> simple (GMap l) = true -> (forall k v, entry_in k v l -> okval v) ->
+  enc_unprotected (Some l) = Acc ub -> within_limits ub ->
+  exists dl, unmarshal_unprotected ub = Acc dl /\ hrel l dl /\ validate_params dl false = true.
+Proof. exact unprotected_roundtrip. Qed.
+Print Assumptions C08_unprotected_roundtrip.
